@@ -188,6 +188,42 @@ def run_two_associations(ctx, name, role, steps, base, others):
                 ctx.fail(v.key.replace('C03:', 'C03:two-associations:', 1), v.what, v.case)
 
 
+def run_early_prefix(ctx, name, role, steps, base):
+    """The first h bytes of the PDU that FOLLOWS a local user action arrive BEFORE that action (the peer had already
+    started sending).  An incomplete PDU is nothing the provider can act on, so indications, bytes sent and final
+    state must be what they are when the whole PDU arrives after the action."""
+    seen_burst = False
+    for k, st_ in enumerate(steps):
+        if st_[0] == 'burst':
+            seen_burst = True
+        if st_[0] != 'user' or k + 1 >= len(steps) or steps[k + 1][0] != 'burst':
+            continue
+        if role == 'requestor' and not seen_burst:
+            continue            # no transport connection yet
+        first = steps[k + 1][1][0]
+        for h in sorted({1, 5, 6, 7, len(first) // 2, len(first) - 1} & set(range(1, len(first)))):
+            case = {'conv': name, 'early_prefix': h, 'before_step': k}
+            actions = []
+            for j, s2 in enumerate(steps):
+                if j == k:
+                    actions.append({'k': 'seg', 'data': first[:h], 'eager': False})
+                if s2[0] == 'burst':
+                    pdus = list(s2[1])
+                    if j == k + 1:
+                        pdus[0] = first[h:]
+                    actions += [{'k': 'seg', 'data': p, 'eager': False} for p in pdus]
+                elif s2[0] == 'user':
+                    actions.append({'k': 'user', 'prim': convs.user_prim(s2[1])})
+                else:
+                    actions.append({'k': 'close', 'eager': False})
+            ctx.case((name, 'early-prefix', k, h), True, labels=['prefix-before-user-action', 'conv=' + name], sample=case)
+            got = observe_actions(role, actions)
+            try:
+                compare(name + ' (%d bytes of the next PDU arrive before local step %d)' % (h, k), base, got, case)
+            except Violation as v:
+                ctx.fail(v.key.replace('C03:', 'C03:early-prefix:', 1), v.what, v.case)
+
+
 def run_conv(ctx, job):
     warnings.simplefilter('ignore')
     name = job['conv']
@@ -200,6 +236,7 @@ def run_conv(ctx, job):
     info = burst_info(steps)
     run_read_sizes(ctx, name, role, steps, base)
     run_two_associations(ctx, name, role, steps, base, sorted(convs.corpus()))
+    run_early_prefix(ctx, name, role, steps, base)
     # whole bursts at once / one-byte dribble
     for fe, b2b in MODES:
         run_variant(ctx, name, role, steps, base, {}, fe, b2b, 'burst-at-once')
@@ -367,7 +404,7 @@ def run(ctx):
     warnings.simplefilter('ignore')
     corpus = convs.corpus()
     ctx.rule = ('for each of %d conversations (both roles): whole-burst, one-byte dribble, every single cut '
-                'offset, pairs of cut offsets, Hypothesis k-cuts (k<=8); another association carried by a second provider of the same process between the two halves of each PDU; the read size of the provider set to exactly the length (a half, a third) of each PDU of the conversation; Hypothesis-generated conversations (the random walks of C05) re-cut at random offsets; two long pipelined streams (> 64 KiB, incl. 30 kB PDUs) in chunks of 100..65536 bytes; x first segment already waiting or not x '
+                'offset, pairs of cut offsets, Hypothesis k-cuts (k<=8); another association carried by a second provider of the same process between the two halves of each PDU; the first bytes of a PDU arriving before the local user action that precedes it; the read size of the provider set to exactly the length (a half, a third) of each PDU of the conversation; Hypothesis-generated conversations (the random walks of C05) re-cut at random offsets; two long pipelined streams (> 64 KiB, incl. 30 kB PDUs) in chunks of 100..65536 bytes; x first segment already waiting or not x '
                 'segments back-to-back or each after quiescence; cuts are applied inside the byte string the peer '
                 'sends between two local actions; compared with one-PDU-per-segment delivery; non-trivial = a cut '
                 'falls strictly inside a PDU or >=2 PDUs share a segment; distinct by (conversation, cuts, modes)'
@@ -410,6 +447,13 @@ def replay(case):
         from ..common import Ctx
         sub = Ctx('C03', 'quick', 1)
         run_two_associations(sub, case['conv'], role, steps, base, sorted(convs.corpus()))
+        for key, ent in sorted(sub.failures.items()):
+            raise Violation(key, ent['what'], ent['case'])
+        return
+    if 'early_prefix' in case:
+        from ..common import Ctx
+        sub = Ctx('C03', 'quick', 1)
+        run_early_prefix(sub, case['conv'], role, steps, base)
         for key, ent in sorted(sub.failures.items()):
             raise Violation(key, ent['what'], ent['case'])
         return
